@@ -157,6 +157,27 @@ type Converter interface {
 		f4[pk+"/input.go"] = "package " + pk + "\n\ntype In struct{ V int }\ntype Out struct{ V int; Missing" + strings.ToUpper(pk) + " string }\n\n// goverter:converter\ntype Converter interface {\n\tConvert(source In) Out\n}\n"
 	}
 	ps = append(ps, c09Prog{name: "f_pkgs", pkgs: []string{"./m1", "./m2", "./m3", "./m4"}, fails: true, files: f4, note: "identically named failing converters in four packages"})
+	// F4b: faults found while the settings are parsed, in several packages
+	f4b := map[string]string{}
+	for _, pk := range []string{"q1", "q2", "q3"} {
+		f4b[pk+"/input.go"] = "package " + pk + "\n\ntype In struct{ V int }\ntype Out struct{ V int }\n\n// goverter:converter\n// goverter:nonsense" + strings.ToUpper(pk) + " x\ntype Converter interface {\n\tConvert(source In) Out\n}\n"
+	}
+	ps = append(ps, c09Prog{name: "f_parse", pkgs: []string{"./q1", "./q2", "./q3"}, fails: true, files: f4b, note: "unknown settings on converters in three packages"})
+	// F4c: two output files that cannot be rendered
+	f4c := map[string]string{}
+	for _, pk := range []string{"r1", "r2", "r3"} {
+		f4c[pk+"/input.go"] = "package " + pk + "\n\ntype In struct{ V int }\ntype Out struct{ V int }\n\n// goverter:converter\n// goverter:output:raw func broken" + strings.ToUpper(pk) + "( {\ntype Converter interface {\n\tConvert(source In) Out\n}\n"
+	}
+	ps = append(ps, c09Prog{name: "f_render", pkgs: []string{"./r1", "./r2", "./r3"}, fails: true, files: f4c, note: "three output files that cannot be rendered"})
+	// S7: @cwd output into an existing package whose name differs from its directory
+	ps = append(ps, c09Prog{name: "cwdexisting", pkgs: []string{"./p"}, note: "@cwd output file next to an existing package with another name",
+		files: map[string]string{
+			"output/existing.go": "package realname\n\nfunc Existing() int { return 1 }\n",
+			"p/input.go":         "package p\n\ntype In struct{ V int }\ntype Out struct{ V int }\n\n// goverter:converter\n// goverter:output:file @cwd/output/gen.go\ntype Converter interface {\n\tConvert(source In) Out\n}\n",
+		}})
+	// S8: enum members that differ only in case
+	ps = append(ps, c09Prog{name: "casefold", pkgs: []string{"./p"}, note: "enum members equal ignoring case",
+		files: map[string]string{"p/input.go": "package p\n\ntype A int\n\nconst (\n\tOK A = iota\n\tOk\n\tID\n\tId\n\tURL\n\tUrl\n\tAPI\n\tApi\n\tIO\n\tIo\n\tDB\n\tDb\n\tUI\n\tUi\n)\n\ntype B int\n\nconst (\n\tBOK B = iota\n\tBOk\n\tBID\n\tBId\n\tBURL\n\tBUrl\n\tBAPI\n\tBApi\n\tBIO\n\tBIo\n\tBDB\n\tBDb\n\tBUI\n\tBUi\n)\n\n// goverter:converter\n// goverter:enum:unknown @ignore\ntype Converter interface {\n\t// goverter:enum:transform regex (.*) B$1\n\tConvert(source A) B\n\t// goverter:enum:transform regex B(.*) $1\n\tBack(source B) A\n}\n"}})
 	// F5: failing call that needs several contexts (context debug lines)
 	ps = append(ps, c09Prog{name: "f_ctx", pkgs: []string{"./p"}, fails: true, note: "custom function whose contexts are only partly available",
 		files: map[string]string{"p/input.go": `package p
